@@ -800,8 +800,12 @@ def main(run, replay=None):
         "sympde/topology/derivatives.py and sympde/core/algebra.py on every run; the walker of TerminalExpr.eval is tied by this "
         "run's correspondence (model output and classical reference proved equal to the implementation's output per case by tequiv).",
         "lower_sound / lower_shape / lower_total are proved for the fragment delimited by the boolean guards of Props/C01.v "
-        "(…_partial); outside it (elementary functions, symbolic exponents, literal tuples, dimension 1 for totality) every "
-        "sample is still decided per case by tens-equivalence inside Coq.",
+        "(..._partial: guard `regular`, definedness hypothesis gdef which holds automatically on division-free trees - "
+        "lower_sound_poly; totality and object shape for d = 2, 3); outside it (elementary functions, symbolic exponents, "
+        "literal tuples / matrices, matrix products, dimension 1 for totality) every sample is still decided per case by "
+        "tens-equivalence inside Coq. The unguarded statements are refuted in Props/C01.v by the two confirmed defects.",
+        "Cases whose lowered output exceeds 4000 nodes, or whose comparison exceeds the time / memory limit of one coqc run, "
+        "are decided by the numeric oracle only (counted as too_large_for_checker / checker_resource_limit).",
         "The sympy cache is cleared before every case (stale results across same-named objects of different dimension are C12).",
         "tequiv=false is 'not proved': such cases are decided by the numeric oracle only and counted as checker_incomplete.",
     ]
